@@ -508,11 +508,15 @@ def c07(tier, seed, work):
 
 def c07_vec(tier, seed, work):
     W = dict(module="MCGenWireVec")
-    return vec_check("C07", tier, seed, work, [_vf("c07-rsp", "rsp", tier, seed), _vf("c07-message", "message", tier, seed, **W),
+    return vec_check("C07", tier, seed, work, [_vf("c07-caps1", "caps1", tier, seed), _vf("c07-caps2", "caps2", tier, seed),
+                                               _vf("c07-rsp", "rsp", tier, seed), _vf("c07-message", "message", tier, seed, **W),
                                                _vf("c07-wrapper", "wrapper", tier, seed, **W), _vf("c07-setup", "setup", tier, seed, **W),
                                                _vf("c07-fsr", "fsr", tier, seed, module="MCGenPrimVec")],
-                     "Every response table of LayerTables.tla: each field over its whole domain around two seeded base records, optional "
-                     "tails, and every body length below the minimum (must be rejected).")
+                     "Every response table of LayerTables.tla and DcmiCaps.tla (the five Get DCMI Capabilities Info parameters under conformance "
+                     "levels 1.0, 1.1, 1.5 and an unknown one): each field over its whole domain around seeded base records, optional and "
+                     "variable-length tails, every body length below the minimum (must be rejected), and each layer decoded after an earlier, "
+                     "different response (other values, all ones, longer tail, other conformance level): the value must be the specification's "
+                     "whatever was decoded before.")
 
 
 def add_walk(res, work, fam_specs, note):
